@@ -93,6 +93,12 @@ func (dts *DataTypeService) Get(key []byte) ([]byte, error) {
 	return encValue[index:], nil
 }
 
+// 判断编码后的 String 类型数据是否已过期
+func stringExpired(encValue []byte) bool {
+	expire, n := binary.Varint(encValue[1:])
+	return n > 0 && expire > 0 && expire <= time.Now().UnixNano()
+}
+
 // ========================= Hash 数据类型 ========================
 
 func (dts *DataTypeService) HSet(key, field, value []byte) (bool, error) {
@@ -203,18 +209,25 @@ func (dts *DataTypeService) findMetadata(key []byte, dt dataType) (*metadata, er
 		exist = false
 	} else {
 		// 先根据类型标识判断, String 类型的数据部分是任意字节, 不能按容器元数据解码
-		if len(metaBuf) == 0 || metaBuf[0] != dt {
+		if len(metaBuf) == 0 {
 			return nil, ErrWrongTypeOperation
 		}
-		// key 存在, 进行解码
-		meta = decodeMetadata(metaBuf)
-		// 判断数据类型是否正确
-		if meta.dataType != dt {
+		if metaBuf[0] == String && dt != String && stringExpired(metaBuf) {
+			// 已过期的 String 视为不存在, 不应返回类型错误
+			exist = false
+		} else if metaBuf[0] != dt {
 			return nil, ErrWrongTypeOperation
-		}
-		// 判断是否过期
-		if meta.expire != 0 && meta.expire <= time.Now().UnixNano() {
-			exist = false // 过期仍视为不存在
+		} else {
+			// key 存在, 进行解码
+			meta = decodeMetadata(metaBuf)
+			// 判断数据类型是否正确
+			if meta.dataType != dt {
+				return nil, ErrWrongTypeOperation
+			}
+			// 判断是否过期
+			if meta.expire != 0 && meta.expire <= time.Now().UnixNano() {
+				exist = false // 过期仍视为不存在
+			}
 		}
 	}
 
